@@ -366,7 +366,7 @@ pub fn property(_tier: Tier) -> Property {
             Box::new(RandomPart {
                 name: "random_trees",
                 rule: "proptest: trees of depth <= 4 built only through Filter::new/tag/tag_exists/tag_absent/negate/!/and over the 31 named tags, Tag::any() and valid unknown names, all 5 operators, values up to 300 chars over all special classes plus ( ) ! = AND; carried by Find, Count, CountGrouped::filter, Count::group_by, List::filter (+group_by); tokenised and parsed by the MPD ports, compared with the mirror tree after flattening ANDs; same non-trivial rule; distinct by serialised case",
-                cases: (100_000, 3_000_000),
+                cases: (100_000, 20_000_000),
                 strategy: Box::new(|_t| (fspec(), carrier()).prop_map(|(spec, carrier)| Case { spec, carrier }).boxed()),
                 check: Box::new(check),
             }),
